@@ -90,7 +90,7 @@ impl Check for ModelCheck {
         let mut prng = Rng::sub(run_seed, "profile");
         let profile = (self.profile)(&mut prng, tier);
         if profile.max_value as u32 + 300 > knobs.item_limit {
-            knobs.item_limit = 1024 * 1024;
+            knobs.item_limit = if profile.max_value > 900_000 { 1024 * 1024 + 512 } else { 1024 * 1024 };
         }
         let mut wrng = Rng::sub(run_seed, "workload");
         let ring_n = Rng::sub(run_seed, "ring").chance(1, 4);
@@ -188,6 +188,11 @@ fn p_c01(rng: &mut Rng, tier: Tier) -> Profile {
     };
     p.conns = rng.range(1, 3) as usize;
     p.max_value = *rng.pick(&[16usize, 64, 300, 3000]);
+    if tier == Tier::Thorough && rng.chance(1, 12) {
+        // values up to (almost) the item size limit
+        p.max_value = *rng.pick(&[60_000usize, 1_000_000]);
+        p.cmds = p.cmds.min(60);
+    }
     p.big_value_pct = 5;
     p.quiet_pct = *rng.pick(&[0u32, 10, 40]);
     p.cas_pct = *rng.pick(&[0u32, 10, 30]);
@@ -316,7 +321,7 @@ pub fn checks() -> Vec<Box<dyn Check>> {
             claims: &["C01"],
             profile: p_c01,
             quick_runs: 60_000,
-            thorough_runs: 1_200_000,
+            thorough_runs: 400_000,
             focus: "all command kinds, binary values, flags, TTLs and clock advances",
         }),
         Box::new(ModelCheck {
@@ -324,7 +329,7 @@ pub fn checks() -> Vec<Box<dyn Check>> {
             claims: &["C02"],
             profile: p_c02,
             quick_runs: 60_000,
-            thorough_runs: 1_200_000,
+            thorough_runs: 400_000,
             focus: "CAS-carrying variants of every mutation with current / stale / shifted / arbitrary tokens",
         }),
         Box::new(ModelCheck {
@@ -332,7 +337,7 @@ pub fn checks() -> Vec<Box<dyn Check>> {
             claims: &["C05"],
             profile: p_c05,
             quick_runs: 60_000,
-            thorough_runs: 1_200_000,
+            thorough_runs: 400_000,
             focus: "stores with TTLs, clock advances aimed at expiry-1 / expiry / expiry+1, delayed flushes",
         }),
         Box::new(ModelCheck {
@@ -340,7 +345,7 @@ pub fn checks() -> Vec<Box<dyn Check>> {
             claims: &["C06"],
             profile: p_c06,
             quick_runs: 60_000,
-            thorough_runs: 1_200_000,
+            thorough_runs: 400_000,
             focus: "add / replace / append / prepend on absent, present, expired, deleted and flushed keys",
         }),
         Box::new(ModelCheck {
@@ -348,7 +353,7 @@ pub fn checks() -> Vec<Box<dyn Check>> {
             claims: &["C07"],
             profile: p_c07,
             quick_runs: 60_000,
-            thorough_runs: 1_200_000,
+            thorough_runs: 400_000,
             focus: "incr / decr over decimal values across the u64 range, odd numerals, extreme deltas, creation rules",
         }),
         Box::new(ModelCheck {
@@ -356,7 +361,7 @@ pub fn checks() -> Vec<Box<dyn Check>> {
             claims: &["C08"],
             profile: p_c08,
             quick_runs: 60_000,
-            thorough_runs: 1_200_000,
+            thorough_runs: 400_000,
             focus: "deletes (cas 0 / matching / stale), immediate and delayed flushes, re-stores",
         }),
     ]
